@@ -707,6 +707,10 @@ func cmdSelftest(args []string) int {
 	if spec.Race {
 		bins = append(bins, b.RaceBin)
 	}
+	sweepOnly := 0
+	if meta, err := getMeta(b.Bin); err == nil && meta.SeededQuick == 0 {
+		sweepOnly = meta.SweepQuick // the engine only enumerates
+	}
 	for _, bin := range bins {
 		// run in slices to bound the number of concurrent processes
 		for s := 0; s < seeds; s += 4 {
@@ -714,7 +718,7 @@ func cmdSelftest(args []string) int {
 			if s+n > seeds {
 				n = seeds - s
 			}
-			if bad := determinismSlice(bin, "quick", rng.Derive(fmt.Sprint(s)), n, procs, 300*time.Second); bad != "" {
+			if bad := determinismSlice(bin, "quick", rng.Derive(fmt.Sprint(s)), n, procs, 300*time.Second, sweepOnly); bad != "" {
 				fmt.Println("NONDETERMINISM:", bad)
 				return 2
 			}
